@@ -391,8 +391,9 @@ let render (b : backend) (q : query) : string =
   let sc = rquery is_alpha_rust b (tables_of !more_parens b) fuel q in
   match emit_inline ftext b sc, emit_params ftext b sc with
   | Ok inl, Ok (sql, vals) ->
-      Printf.sprintf "%s %s %s" (hex_of_str inl) (hex_of_str sql)
+      Printf.sprintf "%s %s %s %s" (hex_of_str inl) (hex_of_str sql)
         (if vals = [] then "-" else String.concat "," (List.map show_value vals))
+        (if vals = [] then "-" else String.concat "," (List.map (fun v -> hex_of_str (value_to_string ftext b v)) vals))
   | _, _ -> "PANIC"
 
 let show_log (log : iobs list) : string =
@@ -408,6 +409,14 @@ let run_stmt (b : backend) (s : Sexp.t) : string =
         let out = render b (QInsert i) in
         if out = "PANIC" then out else if log = [] then out else out ^ " | " ^ show_log log
     | _ -> render b (subquery s)
+  with Exit -> "PANIC"
+
+let run_entry (b : backend) (s : Sexp.t) : string =
+  (* the model is one pure function: every entry point is the same rendering *)
+  try
+    let q = subquery s in
+    let sc = rquery is_alpha_rust b (tables_of !more_parens b) fuel q in
+    (match emit_inline ftext b sc with Ok _ -> "OK" | Panic -> "PANIC")
   with Exit -> "PANIC"
 
 let run_expr (b : backend) (s : Sexp.t) : string =
